@@ -145,7 +145,7 @@ func main() {
 	run := ev.Start("C18", "exploration")
 	defer run.Finish()
 	N := uint64(run.Pick(300, 1200))
-	run.Rule(fmt.Sprintf("paths: the exported SumDB client (TileData, FullLeavesAtOffset, PartialLeavesAtOffset) is called with a recording transport for levels 0-7, widths 1-256 and indices {0..2100, 10^k+-1 and 999*10^k carry boundaries up to 10^9, PRNG}; the requested path must equal '/'+tlog.Tile{H:8,...}.Path(). proofs: for every pair 1 <= from < to <= %d (plus sampled pairs up to 2^20 in thorough) the real sumdb.FeedLog runs once against a stub SumDB serving exactly the size-`to` prefix of a generated tree (tiles beyond it are 404) and a recording witness holding the size-`from` checkpoint; the proof passed to Update must be accepted by kit/reftree, by tlog.CheckTree and by a real Witness holding `from`. evaluations = path checks + size pairs; nontrivial = distinct (level, index digit count, width class) for paths and distinct (from, to) pairs", N))
+	run.Rule(fmt.Sprintf("paths: the exported SumDB client (TileData, FullLeavesAtOffset, PartialLeavesAtOffset) is called with a recording transport for levels 0-7, widths 1-256 and indices {0..2100, 10^k+-1 and 999*10^k carry boundaries up to 10^9, PRNG}; the requested path must equal '/'+tlog.Tile{H:8,...}.Path(). proofs: for every pair 1 <= from < to <= %d (plus sampled pairs up to 2^20 in thorough) the real sumdb.FeedLog runs once against a stub SumDB serving exactly the size-`to` prefix of a generated tree (tiles beyond it are 404) and a recording witness holding the size-`from` checkpoint; the proof passed to Update must be accepted by kit/reftree, by tlog.CheckTree and by a real Witness holding `from`; chains: one long-lived polling feeder follows a growth schedule (partial tiles widening, tile boundaries) and every step must reach the witness with a valid proof within 6 polls. evaluations = path checks + size pairs; nontrivial = distinct (level, index digit count, width class) for paths and distinct (from, to) pairs", N))
 	run.Assume("stub tiles are produced by x/mod tlog.ReadTileData over the harness tree (tlog is the property's stated reference)")
 	if err := xcheck.SelfCheck(uint64(run.Seed), 200); err != nil {
 		run.Inconclusive("reference verifiers disagree: " + err.Error())
@@ -184,6 +184,9 @@ func main() {
 		run.Count("pairs_full_level1_tile")
 		pair(run, unit, t, key, from, to, unit == 0)
 	})
+	// successive growth under ONE long-lived polling feeder (state kept between cycles must not go stale)
+	run.Floor("chain_steps", 80)
+	run.Units("chains", run.Pick(24, 240), 0, func(unit int64, r *rand.Rand) { chain(run, unit, r, tree, key) })
 	if run.Thorough() {
 		big := &reftree.Tree{Seed: uint64(run.Seed) + 99, TagA: 1, TagB: 1, Fork: ^uint64(0)}
 		run.Units("sampled", 20000, 0, func(unit int64, r *rand.Rand) {
@@ -307,5 +310,126 @@ func pair(run *ev.Run, unit int64, tree *reftree.Tree, key *refnote.SignKey, fro
 	}
 	if sample {
 		run.Sample(map[string]any{"part": "proof", "from": from, "to": to, "proof_hashes": len(w.proof), "tile_requests": stub.paths})
+	}
+}
+
+// chainWitness accepts what it is given (like a witness holding exactly that log) and records the steps.
+type chainWitness struct {
+	mu     sync.Mutex
+	latest []byte
+	size   uint64
+	steps  []string
+	bad    string
+	tree   *reftree.Tree
+}
+
+func (w *chainWitness) GetLatestCheckpoint(context.Context, string) ([]byte, error) {
+	w.mu.Lock()
+	defer w.mu.Unlock()
+	if w.latest == nil {
+		return nil, os.ErrNotExist
+	}
+	return w.latest, nil
+}
+
+func (w *chainWitness) Update(_ context.Context, _ string, old uint64, cp []byte, p [][]byte) ([]byte, error) {
+	w.mu.Lock()
+	defer w.mu.Unlock()
+	n, err := refnote.Parse(cp)
+	if err != nil {
+		return nil, err
+	}
+	t, err := tlog.ParseTree([]byte(n.Text))
+	if err != nil {
+		return nil, err
+	}
+	to := uint64(t.N)
+	if old != w.size {
+		w.bad = fmt.Sprintf("old size %d, witness holds %d", old, w.size)
+		return nil, fmt.Errorf("stale")
+	}
+	if w.size > 0 && to > w.size {
+		r1, r2 := w.tree.Root(w.size), w.tree.Root(to)
+		if !reftree.VerifyConsistency(w.size, to, r1[:], r2[:], p) || !xcheck.TlogVerify(w.size, to, r1[:], r2[:], p) {
+			w.bad = fmt.Sprintf("proof %d -> %d (%d hashes) rejected by an independent verifier", w.size, to, len(p))
+			return nil, fmt.Errorf("bad proof")
+		}
+	}
+	w.steps = append(w.steps, fmt.Sprintf("%d->%d", w.size, to))
+	w.latest, w.size = cp, to
+	return cp, nil
+}
+
+func chain(run *ev.Run, unit int64, r *rand.Rand, tree *reftree.Tree, key *refnote.SignKey) {
+	// schedules that make partial tiles widen, cross tile boundaries and revisit coordinates
+	scheds := [][]uint64{
+		{300, 700, 1200}, {1000, 1001, 1002, 1003}, {256, 512, 768, 1024}, {1, 2, 3, 255, 256, 257}, {5, 250, 260, 511, 513, 770},
+	}
+	var sched []uint64
+	if int(unit) < len(scheds) {
+		sched = scheds[unit]
+	} else {
+		cur := uint64(1 + r.IntN(300))
+		for i := 0; i < 5; i++ {
+			sched = append(sched, cur)
+			cur += uint64(1 + r.IntN(400))
+		}
+	}
+	maxN := uint64(1210)
+	for i := range sched {
+		if sched[i] > maxN {
+			sched[i] = maxN - uint64(len(sched)-i)
+		}
+	}
+	stub := &stubSumDB{t: tree, key: key, size: sched[0], cache: map[string][]byte{}}
+	w := &chainWitness{tree: tree}
+	cl, _ := config.NewLog(origin, key.Vkey(), "http://sumdb.invalid")
+	ctx, cancel := context.WithCancel(context.Background())
+	defer cancel()
+	done := make(chan error, 1)
+	go func() { done <- sumdb.FeedLog(ctx, cl, w, &http.Client{Transport: stub}, 40*time.Millisecond) }()
+	latestFetches := func() int {
+		stub.mu.Lock()
+		defer stub.mu.Unlock()
+		n := 0
+		for _, p := range stub.paths {
+			if p == "/latest" {
+				n++
+			}
+		}
+		return n
+	}
+	for i, size := range sched {
+		stub.mu.Lock()
+		stub.size = size
+		stub.mu.Unlock()
+		base := latestFetches()
+		deadline := time.Now().Add(60 * time.Second)
+		for {
+			w.mu.Lock()
+			got, bad := w.size, w.bad
+			w.mu.Unlock()
+			if got == size {
+				run.Count("evaluations")
+				run.Count("chain_steps")
+				run.Distinct("nontrivial", fmt.Sprintf("chain/%d/%d", i, size))
+				break
+			}
+			if n := latestFetches() - base; n >= 7 {
+				stub.mu.Lock()
+				reqs := append([]string{}, stub.paths...)
+				stub.mu.Unlock()
+				run.Violate(fmt.Sprintf("chain_stuck;step=%d", i), fmt.Sprintf("one polling feeder, log grown %v: %d polls after size %d was published the witness is still at %d (%s)", sched[:i+1], n-1, size, got, bad), unit, map[string]any{"schedule": sched, "requests_tail": reqs[max(0, len(reqs)-12):]})
+				return
+			}
+			if time.Now().After(deadline) {
+				run.Inconclusive("watchdog: chain step did not converge and fewer than 7 polls happened in 60 s")
+				return
+			}
+			time.Sleep(5 * time.Millisecond)
+		}
+	}
+	if unit == 0 {
+		run.Sample(map[string]any{"part": "chain", "schedule": sched, "steps": w.steps})
 	}
 }
